@@ -892,8 +892,9 @@ MIXED_COMBOS = {"complex_guess": (("c128", "f64", "c128"), ("c128", "f32", "c128
                 "half_guess": (("f64", "i64", "f64"), ("f64", "f32", "f64"))}
 _NPX = {"f64": np.float64, "f32": np.float32, "c128": np.complex128, "i64": np.int64}
 # warm32: relative to ||r0||, unit = eps32 * (cond + 1) + eps64 * (||A|| ||x0|| + ||b||) / ||r0|| (beta = ||r0|| is carried in
-# the dtype of b).  Measured excess: unchanged tree max 0.5; guess converted to the dtype of b (seeded change C13_E): >= 2e4.
-WARM_C = 16.0
+# the dtype of b).  Measured excess: unchanged tree max 0.17; guess converted to the dtype of b (seeded change C13_E): 218 ..
+# 4.9e5 on every truncated iterate (at m >= Krylov dimension both reach the solution)      -> 4 (geometric middle 6.1)
+WARM_C = 4.0
 
 
 def _is_whole_sqrt(q):
@@ -1008,8 +1009,9 @@ def observe_warm(job, only=None):
 #     ||b - A x|| <= opt_m + DECL_C * eps * cond(A) * ||r0||      (opt_m = 0 for m >= n; dense oracle over an orthonormal
 #                                                                  Krylov basis built in the harness for m = n/2)
 # and return the same iterate: | ||b - A x_decl|| - ||b - A x_undecl|| | <= DECL_C * eps * cond(A) * ||r0||.
-# Measured, in units of eps*cond*||r0||: unchanged tree <= 0.9 for either run and exactly 0 between them (the annotation
-# is not used by the solver); short Gram-Schmidt recurrence for annotated operators (seeded change C13_F): 1e3 .. 1e12.
+# Measured, in units of eps*cond*||r0|| (96 systems over 4 seeds): unchanged tree <= 1.09 for either run and exactly 0
+# between them (the solver does not use the annotation); short Gram-Schmidt recurrence for annotated operators (seeded
+# change C13_F): 1.1e10 .. 2.2e12 on every system                                             -> 16
 DECL_C = 16.0
 
 
